@@ -190,4 +190,55 @@ def pureWallet : List String → Option String
       | .ok _ => pure "ok"
   | _ => none
 
+/-! ### sequences on one key file object (`wl-seq-new`, `wl-seq-op`): stateful handler around `kfStep` -/
+
+def showFields (kf : KeyFile) : String := s!"{showHex kf.cipherData} {showHex kf.nonce} {showHex kf.salt}"
+
+def parseOpened (opened : String) : Option (Option Bytes) :=
+  if opened = "none" then some none
+  else match opened.splitOn ":" with
+    | ["some", x] => (ofHex x).map some
+    | _ => none
+
+/-- oracle for one attempt: the harness computed `dk` = Argon2id(pw, salt of the file as created) and `opened` =
+    AES-GCM-Open(dk, nonce, ciphertext of the file as created); the model may use them only for exactly these inputs -/
+def seqFns (kf : KeyFile) (pw dk : Bytes) (opened : Option Bytes) : CryptoFns :=
+  { nullFns with
+    kdf := fun ps p s => if ps = [1, 65536, 4, 32] ∧ p = pw ∧ s = kf.salt then dk else []
+    aeadOpen := fun k n ad c => if k = dk ∧ n = kf.nonce ∧ ad = [122, 101, 110, 111, 110] ∧ c = kf.cipherData then opened else none }
+
+def showKfOut : KfOut → String
+  | .entropy (.ok e) => "ok " ++ showHex e
+  | .entropy (.error e) => "err " ++ e.show
+  | .done => ""
+  | .reread none => "err json"
+  | .reread (some (c, n, s)) => s!"ok {showHex c} {showHex n} {showHex s}"
+
+def walletSeqStep (st : Option KfHolder) : List String → Option (Option KfHolder × String)
+  | ["wl-seq-new", ct, nonce, salt] => do
+      let ct ← ofHex ct
+      let nonce ← ofHex nonce
+      let salt ← ofHex salt
+      pure (some ⟨⟨[], Gen.aesMode, Gen.argonName, ct, nonce, salt, Gen.cryptoStoreVersion⟩, none⟩, "")
+  | ["wl-seq-op", op, pw, dk, opened] => do
+      let h ← st
+      let pw ← ofHex pw
+      let dk ← ofHex dk
+      let opened ← parseOpened opened
+      let kop ← (if op = "D" || op = "G" then some (KfOp.decrypt pw) else if op = "U" then some (KfOp.unlock pw) else none)
+      let (h', out) := kfStep (seqFns h.kf pw dk opened) h kop
+      pure (some h', showKfOut out ++ " " ++ showFields h'.kf)
+  | ["wl-seq-op", op] => do
+      let h ← st
+      if op = "W" then
+        let (h', out) := kfStep nullFns h .writeRead
+        pure (some h', showKfOut out)
+      else
+        let kop ← (if op = "L" then some KfOp.lock else if op = "S" then some KfOp.scrub else none)
+        let (h', _) := kfStep nullFns h kop
+        pure (some h', showFields h'.kf)
+  | _ => none
+
+def walletSeqObj : Obj := mkObj (none : Option KfHolder) walletSeqStep
+
 end ZV.Driver
